@@ -72,7 +72,7 @@ RULE = ("scenario = thread kind (main / non-main) x random initial environment (
         "O_NONBLOCK/O_APPEND, SIGINT handler default/SIG_IGN/custom raising/custom silent, a wake-up descriptor installed "
         "or not) x a program skeleton (each manager alone; Input in Input; Input in/around FullscreenWindow and "
         "CursorAwareWindow; random nestings of Cbreak/Termmode/Nonblocking/ReplacedSigIntHandler/Input/one window; "
-        "unrolled repetitions; 200-cycle (quick) / 1000-cycle (thorough) enter-exit loops for the descriptor-leak clause) "
+        "unrolled repetitions; the same Input object re-entered inside other managers; 200-cycle (quick) / 1000-cycle (thorough) enter-exit loops for the descriptor-leak clause) "
         "whose bodies hold renders, requests (timeout, key, two keys, paste, queued event, undecodable key, real SIGINT "
         "while blocked in select), trigger creations and calls, x EVERY cut point of that skeleton: no exception, an "
         "exception at each statement boundary of every body, out of select, out of each os.read inside `with "
@@ -250,12 +250,15 @@ class Scenario:
         return buf[0]
 
     def open_fds(self):
-        d = os.open("/proc/self/fd", os.O_RDONLY)
-        try:
-            names = os.listdir(d)
-        finally:
-            os.close(d)
-        return sorted(int(n) for n in names if int(n) != d)
+        """the descriptor table; the descriptor listdir itself uses for the listing is gone again afterwards"""
+        fds = []
+        for name in os.listdir("/proc/self/fd"):
+            try:
+                os.fstat(int(name))
+            except OSError:
+                continue
+            fds.append(int(name))
+        return sorted(fds)
 
     def handler_name(self, h):
         if h is None:
@@ -1097,6 +1100,23 @@ def sk_unrolled(rng, h, w):
     return _sites(ids, ops)
 
 
+def sk_reentry(rng, h, w):
+    """the same Input object entered again in a different environment (another handler, other attributes, another
+    wake-up descriptor in place): what it saved the first time is stale"""
+    ids = _Ids()
+    im = _input_mgr(rng, ids, se=rng.random() < 0.8)
+    first = ["with", im, _sites(ids, [_req(ids, im[1], rng.choice(["timeout0", "key"]))])]
+    inner = ["with", im, _sites(ids, [_req(ids, im[1], rng.choice(["timeout0", "key", "keys2"]))])]
+    wrappers = [["rsh", rng.choice(["ign", "user3", "user4"])], _termmode(rng), _input_mgr(rng, ids, se=True), ["cbreak"]]
+    rng.shuffle(wrappers)
+    for m in wrappers[:rng.choice([1, 2, 3])]:
+        inner = ["with", m, _sites(ids, [inner])]
+    ops = [first, inner]
+    if rng.random() < 0.5:
+        ops.append(["with", im, _sites(ids, [])])
+    return _sites(ids, ops)
+
+
 def sk_requests(rng, h, w, se=None, ss=None):
     """one Input, every kind of request, triggers"""
     ids = _Ids()
@@ -1257,13 +1277,17 @@ def generate(rng, tier):
                 h, w = _size(rng)
                 yield from all_cuts(sk_input_window(rng, h, w, wkind, outside), h, w, 1.0 if thorough else 0.6)
     # random nestings
-    for _ in range(50 if thorough else 6):
+    for _ in range(50 if thorough else 8):
         h, w = _size(rng)
         yield from all_cuts(sk_nesting(rng, h, w), h, w)
     # unrolled repetitions
     for _ in range(16 if thorough else 2):
         h, w = _size(rng)
         yield from all_cuts(sk_unrolled(rng, h, w), h, w)
+    # re-entry of the same Input object in a changed environment
+    for _ in range(12 if thorough else 3):
+        h, w = _size(rng)
+        yield from all_cuts(sk_reentry(rng, h, w), h, w, 1.0 if thorough else 0.7)
     # requests and triggers
     for k in range(8 if thorough else 1):
         h, w = _size(rng)
